@@ -51,6 +51,9 @@ type c13Plan struct {
 	NoThink    bool `json:"no_think"`     // the target answers at the very instant it has the last request byte
 	WriteLagMs int  `json:"write_lag_ms"` // the proxy's writes to the target return this long after the target can read them
 	RDelayMs   int  `json:"r_delay_ms"`   // the second half of the response body follows this long after the first
+	// TargetTimeoutMs > 0: the service's target timeout (it bounds the wait for the response HEADERS; a body that is still
+	// arriving when it elapses is delivered whole)
+	TargetTimeoutMs int `json:"target_timeout_ms,omitempty"`
 }
 
 var (
@@ -124,6 +127,14 @@ func c13Gen(t *rapid.T) c13Plan {
 	p.NoThink = rapid.IntRange(0, 9).Draw(t, "no-think") == 0
 	p.WriteLagMs = rapid.SampledFrom([]int{0, 0, 0, 0, 5}).Draw(t, "write-lag")
 	p.RDelayMs = rapid.SampledFrom([]int{0, 0, 0, 10}).Draw(t, "r-delay")
+	if rapid.IntRange(0, 4).Draw(t, "target-timeout?") == 0 {
+		p.TargetTimeoutMs = 50
+		p.RDelayMs = rapid.SampledFrom([]int{10, 49, 100, 400}).Draw(t, "r-delay-vs-timeout")
+		if rapid.IntRange(0, 2).Draw(t, "cl-for-delay") > 0 {
+			p.RFraming = "cl"
+			p.RBodyLen = max(p.RBodyLen, 100)
+		}
+	}
 	return p
 }
 
@@ -200,6 +211,12 @@ func c13Run(t *testing.T, p c13Plan) (res vfResult) {
 		to.ForwardHeaders = p.Forward
 		to.BufferRequests, to.BufferResponses = p.BufReq, p.BufResp
 		to.MaxMemoryBufferSize = 1024
+		if p.TargetTimeoutMs > 0 {
+			to.ResponseTimeout = vfMs(p.TargetTimeoutMs)
+			if p.RDelayMs > p.TargetTimeoutMs && p.RFraming == "cl" && p.RBodyLen > 1 {
+				res.label("body-still-arriving-when-the-target-timeout-elapses")
+			}
+		}
 		if p.Prior > 0 {
 			// the service has a past: other targets, the opposite options
 			w.target("old0:80")
